@@ -154,13 +154,12 @@ ROUND3 += [
          "        s = unicodedata.normalize(\"NFKC\", s)\n",
          "    if not convert_unicode:\n        s = unicodedata.normalize(\"NFKC\", s)\n    else:\n        s = unidecode(s)\n"),
     ]),
-    ("label_underscores_while", "leading underscores are moved one at a time", [
-        (J + "models/base.py",
-         "    head = len(s) - len(s.lstrip(\"_\"))\n    s = s[head:] + s[:head]\n",
-         "    while s.startswith('_') and s.strip(\"_\"):\n        s = s[1:] + \"_\"\n"),
+    ("label_underscore_startswith", "the underscore step of the label loop tests startswith", [
+        (J + "models/base.py", "        if s[0] == \"_\":\n            s = s[1:] + \"_\"\n",
+         "        if s.startswith(\"_\"):\n            s = s[1:] + \"_\"\n"),
     ]),
-    ("label_empty_len_guard", "the digit test is guarded by an explicit length test", [
-        (J + "models/base.py", "    if s and '0' <= s[0] <= '9':\n", "    if len(s) > 0 and '0' <= s[0] <= '9':\n"),
+    ("label_loop_guard_lstrip", "the label loop is guarded with lstrip", [
+        (J + "models/base.py", "    while s.strip(\"_\") and not s[0].isalpha():\n", "    while s.lstrip(\"_\") and not s[0].isalpha():\n"),
     ]),
 ]
 
